@@ -312,21 +312,40 @@ def wordOf : Expr → Option Bytes
   | .word w => if w = [] then none else some w
   | _ => none
 
+/-- `arithmNumberLike`: after `TrimSpace` and one optional sign, only letters, digits, `#@_`. -/
+def numberLike (s : Bytes) : Bool :=
+  let t := trimSpace s
+  let t := match t with
+    | 43 :: r => r
+    | 45 :: r => r
+    | _ => t
+  t.all fun c => isNameChar c || c == 64 || c == 35
+
+/-- The word rule of `Arithm`: chase names, then either `atoi` or — when at least one name was
+    followed (`i > 0`) and the string is not number-like — `cfg.arithmValue`, here the parameter
+    `deeper`. -/
+def evalWord (deeper : Env → Bytes → Res × Env) (env : Env) (w : Bytes) : Res × Env :=
+  let str := chase env.get (maxNameRefDepth - 1) w
+  if validName w && env.get w != [] && !numberLike str then deeper env str
+  else (.ok (atoi str), env)
+
 mutual
-/-- `Arithm`: result and the environment at the moment evaluation stopped. -/
-def evalArith (env : Env) : Expr → Res × Env
-  | .word w => (.ok (atoi (chase env.get (maxNameRefDepth - 1) w)), env)
-  | .paren x => evalArith env x
+/-- `Arithm` with `cfg.arithmValue` abstracted as `deeper`: result and the environment at the
+    moment evaluation stopped. -/
+def evalWith (deeper : Env → Bytes → Res × Env) (env : Env) : Expr → Res × Env
+  | .word w => evalWord deeper env w
+  | .paren x => evalWith deeper env x
   | .unary op post x =>
     if op = .inc ∨ op = .dec then
       match wordOf x with
       | some name =>
-        let old := atoi (env.get name)
-        let val := if op = .inc then wrap64 (old + 1) else wrap64 (old - 1)
-        andThen (setVar env name val) fun _ env' => (.ok (if post then old else val), env')
+        -- `oldInt, err := Arithm(cfg, expr.X)`: the variable is read as a word
+        andThen (evalWord deeper env name) fun old env1 =>
+          let val := if op = .inc then wrap64 (old + 1) else wrap64 (old - 1)
+          andThen (setVar env1 name val) fun _ env2 => (.ok (if post then old else val), env2)
       | none => (.err .unsupTarget, env)
     else
-      andThen (evalArith env x) fun v env' =>
+      andThen (evalWith deeper env x) fun v env' =>
         match op with
         | .not => (.ok (oneIf (v == 0)), env')
         | .bitNeg => (.ok (-v - 1), env')
@@ -337,61 +356,33 @@ def evalArith (env : Env) : Expr → Res × Env
     if isAssign op then
       match wordOf x with
       | some name =>
-        let val := atoi (env.get name)
-        andThen (evalArith env y) fun arg env' =>
-          match assignOp op with
-          | none => setVar env' name arg
-          | some aop =>
-            match binArit aop val arg with
-            | .ok v => setVar env' name v
-            | e => (e, env')
+        match assignOp op with
+        | none =>
+          andThen (evalWith deeper env y) fun arg env' => setVar env' name arg
+        | some aop =>
+          -- the old value is read (as a word) before the right-hand side is evaluated
+          andThen (evalWord deeper env name) fun val env1 =>
+            andThen (evalWith deeper env1 y) fun arg env' =>
+              match binArit aop val arg with
+              | .ok v => setVar env' name v
+              | e => (e, env')
       | none => (.err .unsupTarget, env)
     else if op = .ternQuest then
-      andThen (evalArith env x) fun cond env' => evalTernBranch env' cond y
+      andThen (evalWith deeper env x) fun cond env' => evalTernBranch deeper env' cond y
     else if op = .andL ∨ op = .orL then
-      andThen (evalArith env x) fun left env' =>
+      andThen (evalWith deeper env x) fun left env' =>
         if op = .andL ∧ left = 0 then (.ok 0, env')
         else if op = .orL ∧ left ≠ 0 then (.ok 1, env')
-        else andThen (evalArith env' y) fun right env'' => (.ok (oneIf (right != 0)), env'')
+        else andThen (evalWith deeper env' y) fun right env'' => (.ok (oneIf (right != 0)), env'')
     else
-      andThen (evalArith env x) fun left env' =>
-        andThen (evalArith env' y) fun right env'' => (binArit op left right, env'')
+      andThen (evalWith deeper env x) fun left env' =>
+        andThen (evalWith deeper env' y) fun right env'' => (binArit op left right, env'')
 
 /-- `b2 := expr.Y.(*syntax.BinaryArithm)` (whatever its operator) and the choice of the branch. -/
-def evalTernBranch (env : Env) (cond : Int) : Expr → Res × Env
-  | .binary _ b2x b2y => if cond ≠ 0 then evalArith env b2x else evalArith env b2y
+def evalTernBranch (deeper : Env → Bytes → Res × Env) (env : Env) (cond : Int) : Expr → Res × Env
+  | .binary _ b2x b2y => if cond ≠ 0 then evalWith deeper env b2x else evalWith deeper env b2y
   | _ => (.panic, env)
 end
-
-/-! ## Call sites in interp/runner.go -/
-
-/-- `r.arithm(expr)`: the int the runner continues with (0 on error; the error is only printed). -/
-def runnerArithm (env : Env) (e : Expr) : Int × Env :=
-  match evalArith env e with
-  | (.ok v, env') => (v, env')
-  | (_, env') => (0, env')
-
-/-- `case *syntax.ArithmCmd: r.exit.oneIf(r.arithm(cm.X) == 0)`. -/
-def arithCmdStatus (env : Env) (e : Expr) : Nat × Env :=
-  let (v, env') := runnerArithm env e
-  (if v = 0 then 1 else 0, env')
-
-/-- `case *syntax.LetClause`: every expression is evaluated, the last value decides. -/
-def letLoop (env : Env) (val : Int) : List Expr → Int × Env
-  | [] => (val, env)
-  | e :: rest =>
-    let (v, env') := runnerArithm env e
-    letLoop env' v rest
-
-def letStatus (env : Env) (es : List Expr) : Nat × Env :=
-  let (v, env') := letLoop env 0 es
-  (if v = 0 then 1 else 0, env')
-
-/-- A simple command whose only expansion is `$((e))` with a status-0 builtin (`echo $((e))`):
-    an arithmetic error is printed by `expandErr`, which does not set the exit status. -/
-def expansionStatus (env : Env) (e : Expr) : Nat × Env :=
-  let (_, env') := evalArith env e
-  (0, env')
 
 /-! ## Parser: the precedence chain of syntax/parser_arithm.go (bash, non-compact) -/
 
@@ -701,6 +692,72 @@ def lexArith : Nat → Bytes → Option (List Tok)
       match lexSym (b :: rest) with
       | some (s, r) => (lexArith fuel r).map (Tok.sym s :: ·)
       | none => none
+
+/-! ## `cfg.arithmValue`, `Arithm`, and the call sites in interp/runner.go -/
+
+inductive ValParse
+  | syntaxErr
+  | empty
+  | expr (e : Expr)
+  deriving DecidableEq, Repr
+
+/-- `syntax.NewParser().Arithmetic(strings.NewReader(val))`: the first expression of the text;
+    what follows it is not looked at.  (Texts over word characters, blanks, operators and
+    parentheses; `$`, quotes, backslashes, brackets are outside the model.) -/
+def parseValue (v : Bytes) : ValParse :=
+  match lexArith (v.length + 1) v with
+  | none => .syntaxErr
+  | some toks =>
+    match parseLevel (20 * toks.length + 20) lvComma toks with
+    | none => .syntaxErr
+    | some (none, _) => .empty
+    | some (some e, _) => .expr e
+
+/-- `Arithm` when `maxNameRefDepth - cfg.arithmDepth = d`: `arithmValue` fails with "expression
+    recursion level exceeded" at `d = 0`, otherwise parses the text and evaluates one level deeper. -/
+def evalAt : Nat → Env → Expr → Res × Env
+  | 0 => evalWith fun env _ => (.err .recursion, env)
+  | d + 1 => evalWith fun env str =>
+    match parseValue str with
+    | .syntaxErr => (.err .syntaxErr, env)
+    | .empty => (.ok 0, env)
+    | .expr e' => evalAt d env e'
+
+/-- `expand.Arithm` (called with `cfg.arithmDepth = 0`). -/
+def evalArith (env : Env) (e : Expr) : Res × Env := evalAt maxNameRefDepth env e
+
+/-- `r.arithm(expr)`: `(n, ok)`; the error is printed by `expandErr`. -/
+def runnerArithm (env : Env) (e : Expr) : Int × Bool × Env :=
+  match evalArith env e with
+  | (.ok v, env') => (v, true, env')
+  | (_, env') => (0, false, env')
+
+/-- `case *syntax.ArithmCmd: r.exit.oneIf(!r.arithmTrue(cm.X))`. -/
+def arithCmdStatus (env : Env) (e : Expr) : Nat × Env :=
+  let (v, _, env') := runnerArithm env e
+  (if v = 0 then 1 else 0, env')
+
+/-- `case *syntax.LetClause`: stop at the first error (`val` is then 0), else the last value
+    decides. -/
+def letLoop (env : Env) (val : Int) : List Expr → Int × Env
+  | [] => (val, env)
+  | e :: rest =>
+    match runnerArithm env e with
+    | (v, true, env') => letLoop env' v rest
+    | (_, false, env') => (0, env')
+
+def letStatus (env : Env) (es : List Expr) : Nat × Env :=
+  let (v, env') := letLoop env 0 es
+  (if v = 0 then 1 else 0, env')
+
+/-- A simple command whose only expansion is `$((e))` with a status-0 builtin (`echo $((e))`):
+    `expandErr` fails the command (status 1, not run) for the messages "division by zero" and
+    "exponent less than 0" only; any other arithmetic error is printed and the command runs. -/
+def expansionStatus (env : Env) (e : Expr) : Nat × Env :=
+  match evalArith env e with
+  | (.err .divZero, env') => (1, env')
+  | (.err .negExp, env') => (1, env')
+  | (_, env') => (0, env')
 
 /-- Text of a variable value as an expression: `some none` for a blank text (value 0). -/
 def parseText (v : Bytes) : Option (Option Expr) :=
